@@ -126,7 +126,7 @@ theorem integerAssign8_neg_eq_generic (x : Int) (hneg : x < 0) (hlo : -(2:Int)^6
   · have hx : x ≠ 0 := by omega
     have hl : 7 ≤ x.natAbs.log2 := log2_ge _ 7 (by omega)
     rw [fromInt_large 8 0 x hx (by simp; omega)]
-    unfold integerAssign8
+    unfold integerAssign8 integerAssign8With
     simp only [hx, if_false, hneg, decide_true, if_true]
     rw [toSigned_ofSigned_64' (-x) (by omega) (by omega)]
     have h48 : -x > 48 := by omega
